@@ -254,6 +254,8 @@ fn plan_base(prop: &str) -> Vec<Item> {
             v.push(it("sync_states", "pool=2,st=8,n=1", Some(2), 3));
             v.push(it("sync_states", "pool=2,st=3,n=2", Some(1), 2));
             v.push(it("f3_nested_sync", "pool=1", Some(3), 4));
+            v.push(it("sync_wipe", "pool=1", Some(2), 3));
+            v.push(it("sync_wipe", "pool=2", Some(1), 2));
             v.push(it("f3_sync_sync", "pool=0", Some(3), 5));
             v.push(it("fd_result", "pool=0,mode=3", Some(3), 4));
             v.push(it("fd_result", "pool=0,mode=3,k=2", Some(3), 4));
@@ -280,7 +282,7 @@ fn plan_base(prop: &str) -> Vec<Item> {
                 for dropper in [0, 3] {
                     v.push(it("drop_obj", &format!("pool={},state=5,dropper={}", pool, dropper), Some(2), 3));
                 }
-                for state in [0, 2, 3] {
+                for state in [0, 1, 2, 3] {
                     v.push(it("drop_obj", &format!("pool={},state={},dropper=3", pool, state), Some(2), 3));
                 }
             }
@@ -528,7 +530,7 @@ fn plan_base(prop: &str) -> Vec<Item> {
         }
         "C15x" => {}
         "C16" => {
-            for mode in 0..4 {
+            for mode in 0..5 {
                 for pool in [1, 2] {
                     v.push(it("pipe_drop_output", &format!("pool={},mode={}", pool, mode), Some(if pool == 1 { 2 } else { 1 }), if pool == 1 { 3 } else { 2 }));
                 }
@@ -542,6 +544,8 @@ fn plan_base(prop: &str) -> Vec<Item> {
             for pool in [1, 2] {
                 v.push(it("pool_census", &format!("pool={},n=2,phases=3", pool), Some(if pool == 1 { 2 } else { 1 }), if pool == 1 { 3 } else { 2 }));
             }
+            v.push(it("pool_census", "pool=1,n=2,phases=4", Some(1), 2));
+            v.push(it("pool_census", "pool=2,n=2,phases=4", Some(0), 1));
             v.push(it("pool_census", "pool=1,n=2,phases=0,dbg=1", Some(1), 2));
             v.push(it("pool_census", "pool=2,n=2,phases=0,dbg=1", Some(0), 1));
             v.push(it("pool_census", "pool=1,n=3,phases=0", Some(1), 2));
@@ -555,10 +559,12 @@ fn plan_base(prop: &str) -> Vec<Item> {
             v.push(it("sync_states", "pool=0,st=0,n=2,raw=0", Some(2), 3));
             v.push(it("sync_states", "pool=1,st=5,n=1,raw=0", Some(2), 3));
             for state in [1, 3] {
-                for dropper in 0..3 {
+                for dropper in 0..4 {
                     v.push(it("drop_obj", &format!("pool=1,state={},dropper={}", state, dropper), Some(2), 3));
                 }
             }
+            v.push(it("drop_obj", "pool=1,state=2,dropper=3", Some(2), 3));
+            v.push(it("drop_obj", "pool=0,state=5,dropper=3", Some(2), 3));
             v.push(it("fd_result", "pool=1,mode=3,raw=0", Some(2), 2));
             v.push(it("fd_result", "pool=1,mode=1,raw=0", Some(1), 2));
             for mode in 0..4 {
@@ -592,7 +598,7 @@ fn mentions_future_sync(part: &str) -> bool {
 pub fn owners(scenario: &str, part: &str) -> Vec<&'static str> {
     let class = class_of(part);
     let liveness: Vec<&'static str> = match scenario {
-        "sync_states" | "f3_sync_sync" | "f3_nested_sync" => vec!["C04", "C03"],
+        "sync_states" | "f3_sync_sync" | "f3_nested_sync" | "sync_wipe" => vec!["C04", "C03"],
         "wake_ctx" | "wake_stale_entry" => vec!["C06"],
         "fd_result" | "fd_two" => vec!["C07", "C04"],
         "fs_cancel" | "fs_nested" => vec!["C08"],
